@@ -509,7 +509,8 @@ Lemma hagree_asm_vol pol ffs3 h vb files h' b :
   asm_vol pol ffs3 h vb files = Ok (h', b) ->
   vol_verbatim h files = false -> v_resizable h = false -> vhdr_in h vb ->
   hagree (v_dataoff h) vb b /\
-  (sub 16 16 b = sub 16 16 vb \/ sub 16 16 b = FFS3).
+  (sub 16 16 b = sub 16 16 vb \/ sub 16 16 b = FFS3) /\
+  (ffs3 && bytes_eqb (v_guid h) FFS2 = true -> sub 16 16 b = FFS3).
 Proof.
   intros H Hv Hr (Hok & Lvb & Hh & R32 & R48 & R44 & Hdoff & (c0 & s0 & rest0 & Hbl & R56) & Hext).
   destruct (asm_vol_v_len _ _ _ _ _ _ _ H Hv Hr) as [Lb _].
@@ -574,9 +575,11 @@ Proof.
       - rewrite zlen_splice; rewrite ?le2, ?L6; lia.
       - intros i Hi. rewrite nth_error_splice_lo by (rewrite ?le2, ?L6; lia).
         apply nth_error_splice_lo; change (zlen [0;0]) with 2; lia. }
-    rewrite G. unfold b4. destruct sw.
-    + right. change 16 with (zlen FFS3) at 2. apply sub_splice; change (zlen FFS3) with 16; lia.
-    + left. apply S2; lia.
+    rewrite G. unfold b4. split.
+    + destruct sw.
+      * right. change 16 with (zlen FFS3) at 2. apply sub_splice; change (zlen FFS3) with 16; lia.
+      * left. apply S2; lia.
+    + intros Hsw. rewrite Hsw. change 16 with (zlen FFS3) at 2. apply sub_splice; change (zlen FFS3) with 16; lia.
 Qed.
 
 Lemma end_of_count : forall l off, 0 <= off -> Forall (fun f => 24 <= zlen (node_buf f)) l ->
@@ -606,7 +609,7 @@ Lemma asm_vol_valid_fv dec d pol ffs3 h vb files h' b :
   valid_fv dec (S d) true b = true.
 Proof.
   intros H Hv Hr Hin Hpol Hlen Hok.
-  destruct (hagree_asm_vol _ _ _ _ _ _ _ H Hv Hr Hin) as (HA & Hguid).
+  destruct (hagree_asm_vol _ _ _ _ _ _ _ H Hv Hr Hin) as (HA & Hguid & _).
   destruct Hin as (Hbok & Lvb & Hh & R32 & R48 & R44 & Hdoff & Hblk & Hext).
   destruct (asm_vol_v_len _ _ _ _ _ _ _ H Hv Hr) as [Lb _].
   destruct (asm_vol_v_inv _ _ _ _ _ _ _ H Hv Hr)
